@@ -1,6 +1,7 @@
 package ppkg
 
 import (
+	"bytes"
 	"encoding/json"
 	"errors"
 	"fmt"
@@ -717,8 +718,102 @@ func c18histChild(raw json.RawMessage, scratch string) {
 		}
 		// ring-crossing writes: interval oracle with concurrent DataRange/ReadAt observers
 		runCrossing(r, hc, scratch, rng)
+		runMultiWriter(r, hc, rng)
 	}
 	wk.ChildDone(r)
+}
+
+// runMultiWriter: several goroutines write at the same time, one of them with payloads that regularly straddle the
+// physical end of the ring. Whatever the interleaving, the log must be a sequence of whole writes: the bytes one
+// Write put at offset o..o+n are what a read at o returns, never another writer's bytes in between. Every payload
+// names its writer, round and length, so the round's log region either parses into exactly this round's payloads
+// or it does not.
+func runMultiWriter(r *res.R, hc *histCase, rng *prng.R) {
+	if hc.Backend == "file" {
+		return
+	}
+	const small = 8
+	capacity := 4096
+	bl := backlog.NewSize(capacity)
+	defer bl.Close()
+	rounds := 300
+	mk := func(id, round, n int) []byte {
+		b := make([]byte, n)
+		b[0], b[1], b[2] = byte(id), byte(n), byte(n>>8)
+		for i := 3; i < n; i++ {
+			b[i] = byte(id*131 + round*17 + i*7)
+		}
+		return b
+	}
+	start := make([]chan []byte, small+1)
+	var wg sync.WaitGroup
+	for w := range start {
+		start[w] = make(chan []byte)
+		go func(w int) {
+			for b := range start[w] {
+				bl.Write(b)
+				wg.Done()
+			}
+		}(w)
+	}
+	defer func() {
+		for _, c := range start {
+			close(c)
+		}
+	}()
+	var wpos uint64
+	straddles := 0
+	for round := 0; round < rounds; round++ {
+		payloads := make([][]byte, small+1)
+		payloads[0] = mk(0, round, rng.Range(900, 3000))
+		total := len(payloads[0])
+		for w := 1; w <= small; w++ {
+			payloads[w] = mk(w, round, rng.Range(3, 90))
+			total += len(payloads[w])
+		}
+		if int(wpos%uint64(capacity))+total > capacity {
+			straddles++
+		}
+		wg.Add(small + 1)
+		for _, w := range rng.Perm(small + 1) {
+			start[w] <- payloads[w]
+		}
+		wg.Wait()
+		buf := make([]byte, total)
+		got := 0
+		for got < total {
+			k, err := bl.ReadAt(buf[got:], wpos+uint64(got))
+			if err != nil || k == 0 {
+				r.Violation("C18|mem|concurrent-writers|outcome=round-not-readable", fmt.Sprintf("round %d: %d bytes were written by %d concurrent Writes at offset %d, ReadAt(%d) = %d, %v", round, total, small+1, wpos, wpos+uint64(got), k, err), hc)
+				return
+			}
+			got += k
+		}
+		seen := map[int]bool{}
+		for pos := 0; pos < total; {
+			bad := ""
+			id := int(buf[pos])
+			n := 0
+			if pos+3 <= total {
+				n = int(buf[pos+1]) | int(buf[pos+2])<<8
+			}
+			switch {
+			case id > small || seen[id] || n != len(payloads[id]) || pos+n > total:
+				bad = "no whole write starts here"
+			case !bytes.Equal(buf[pos:pos+n], payloads[id]):
+				bad = fmt.Sprintf("the write of writer %d (%d bytes) starts here but is not contiguous", id, n)
+			}
+			if bad != "" {
+				r.Violation("C18|mem|concurrent-writers|outcome=write-not-contiguous-in-log", fmt.Sprintf("round %d (capacity %d, round starts at offset %d = ring position %d, %d bytes from %d concurrent Writes): at offset %d %s; a read at a write's offset must return that write's bytes", round, capacity, wpos, wpos%uint64(capacity), total, small+1, wpos+uint64(pos), bad), hc)
+				return
+			}
+			seen[id] = true
+			pos += n
+		}
+		wpos += uint64(total)
+	}
+	r.Count("concurrent_writer_rounds", int64(rounds))
+	r.Count("concurrent_writer_rounds_straddling_ring_end", int64(straddles))
 }
 
 // runCrossing: writes that cross the ring end are not atomic; every concurrent observation must still be
@@ -796,7 +891,7 @@ func runCrossing(r *res.R, hc *histCase, scratch string, rng *prng.R) {
 func c18(c *wk.Ctx) {
 	r := c.R
 	r.Rule = "Mode A: seeded single-threaded programs of Write/ReadAt/WaitAt(up to 3 simultaneous readers parked at wpos)/DataRange/NewReader/SeekTo/IsValid/Reader.Read/Close against an exact offset model {wpos, capacity, closed} with position-coded content; offsets aimed at wpos-cap-1..wpos-cap+1 and wpos..wpos+1; waiting/waking decided by goroutine state. " +
-		"Mode B: 1 writer (chunks not crossing the ring end) + 2-4 readers recorded at the API boundary and checked with porcupine against the model; ring-crossing writes under an interval oracle. distinct = (backend, capacity, ring laps, #waits, closed) / history shape"
+		"Mode B: 1 writer (chunks not crossing the ring end) + 2-4 readers recorded at the API boundary and checked with porcupine against the model; ring-crossing writes under an interval oracle; 9 concurrent writers (one with payloads that straddle the ring end) whose self-describing payloads must each be contiguous in the log. distinct = (backend, capacity, ring laps, #waits, closed) / history shape"
 	if c.Replay != "" {
 		b, err := os.ReadFile(c.Replay)
 		if err != nil {
@@ -866,5 +961,6 @@ func c18(c *wk.Ctx) {
 	r.Floor("waiter_wakeups_by_close", 10)
 	r.Floor("ring_laps", 500)
 	r.Floor("history_ops", 2000)
+	r.Floor("concurrent_writer_rounds_straddling_ring_end", 5000)
 	r.Assume("waiting/woken read from runtime.Stack goroutine states; porcupine model state = write position; content is position-coded so 'other bytes' is decidable per byte")
 }
